@@ -26,7 +26,7 @@ impl Key {
             Key::EcdsaP256 => "ecdsa-p256",
         }
     }
-    fn files(&self) -> (&'static str, &'static str) {
+    pub fn files(&self) -> (&'static str, &'static str) {
         match self {
             Key::Rsa2048 => ("../../../test_assets/secret_key.asc", "../../../test_assets/public_key.asc"),
             Key::Rsa4096 => ("secret_rsa4096.asc", "public_rsa4096.asc"),
